@@ -66,6 +66,55 @@ CHECKS = {
         "<=2 surfaces in replays (3 in TLC thorough); MPhys groups wired by hand without the MPI distributor. " + TRUSTED,
         "5 C19, 3.5",
     ),
+    "C10": (
+        "model_checking",
+        "TLC: KBeam exact integer transcription of the beam element (symmetry, rigid-body null space, DOF permutation meaning, orthonormal frame, closed-form cantilever nodal exactness); every state replayed through the real element chain and the real assembled clamped beam; independent 3-D frame on random beams",
+        "1008 exact element/cantilever cases are model-checked and each is pushed through LocalStiff, LocalStiffPermuted, Transform, LocalStiffTransformed and through AssembleKGroup+SpatialBeamStates as a half-span (clamp = last node) and full-span (clamp = centre node) beam, whose tip displacement must equal the closed form; random beams are compared with an independently assembled Euler-Bernoulli frame (displacements, equilibrium residual, clamp, linearity, Maxwell-Betti, rotation equivariance for tubes).",
+        "Directions with rational cosines only in TLC (7 directions incl. swept, dihedral, both signs); E,G,A,I,J small integers; random part: ny 2..11, tube and wingbox-like sections, loads ~1e4 N. " + TRUSTED,
+        "5 C10, 3.7",
+    ),
+    "C11": (
+        "model_checking",
+        "TLC: KTransfer exact integer transcription (force and moment conservation about two points, zero/translation/rotation identities) over 1340 cases; every state through the real LoadTransfer, MeshPointForces, ComputeNodes, DisplacementTransfer, ComputeTransformationMatrix; random real inputs from first principles",
+        "The transfer kernels are linear/bilinear in their inputs, so a basis of unit forces plus dense fields on four mesh classes, five spar locations and seven displacement fields exercises every term; conservation laws are invariants of the transcription and every state is an implementation test (1e-12); random deformed meshes and force fields are checked against sum F and sum M about random points, and rigid-motion identities incl. first-order rotation.",
+        "nx<=3, ny<=4 in the table (nx<=4, ny<=7 random); aerodynamic centre at quarter chord. " + TRUSTED,
+        "5 C11, 3.7",
+    ),
+    "C13": (
+        "model_checking",
+        "TLC: KGeom exact rational transcription of the nine mesh transformations and their chain with the documented effects as invariants (1152 cases); every exact state through the real GeometryMesh; random real design-variable values against the same effects; constant B-spline distributions",
+        "Each design variable alone, on six mesh classes, half and full span, four reference-axis positions: defaults are the identity wherever the dihedral pre-rotation is inert, span sets the extent, sweep/dihedral shear linearly with distance from the root on both sides, taper and chord scale about the reference axis, twist preserves chord length and raises the leading edge, shears translate; the real group must reproduce every exact table entry to 1e-12 and the effects on random meshes/values; equal control points give constant distributions for 1-6 control points (geometry, tube, wingbox groups).",
+        "Meshes with chordwise-constant y; twist as Pythagorean (cos,sin), sweep/dihedral as tan; known finding F7 (default chain not the identity for dihedral + non-flat sections). " + TRUSTED,
+        "5 C13, 3.7",
+    ),
+    "C14": (
+        "model_checking",
+        "TLC: KMesh exact rational transcription of the rectangular generator, getFullMesh, the symmetric multi-section generator and unify_mesh with ordering/extent/symmetry/half-full/coincident-edge invariants (222 cases); every state against the real generators; cosine blends, CRM, offsets, 1-4 sections on the code's output",
+        "Uniform-spacing meshes are exact in TLC and compared node for node; for cosine-spacing blends in [0,1] (uninterpreted Cos), rect and CRM planforms, num_x 2..8 and odd num_y 3..41 the same invariants are evaluated on the code's output: shape, x increasing chordwise, y increasing spanwise, span and root chord, mirror symmetry, offsets as translations, half = left half of full, getFullMesh round trip, coincident section edges, unification = stitched surface (function and component).",
+        "Multi-section: symmetric surfaces with the root section last; the unification component needs >= 2 sections. " + TRUSTED,
+        "5 C14, 3.7",
+    ),
+    "C15": (
+        "model_checking",
+        "TLC: KStress exact rational transcription of tube/wingbox stress recovery on pure states (non-negative, rigid motion adds nothing, quadratic scaling, closed forms) and the KS shift discipline (1286 cases); every state through the real components; random fields and KS bounds up to 1e12 Pa",
+        "Squared stresses of axial, torsion and constant-curvature states (and combinations with rigid-body motion and scaling) on five element directions equal the closed forms of the element's own section properties; the real VonMisesTube/VonMisesWingbox reproduce every entry; FailureExact = vm/sigma - 1; KS is evaluated for N = 1..400 terms, six magnitude patterns up to 1e12 Pa and four rho values: finite, never below the maximum, at most ln N / rho above it.",
+        "Stresses compared squared; Exp/Ln uninterpreted in the spec. " + TRUSTED,
+        "5 C15, 3.7",
+    ),
+    "C16": (
+        "model_checking",
+        "TLC: KLoads exact rational transcription of mass, cg, structural-weight, fuel, point-mass and thrust loads and the fuel-volume margin with conservation invariants (144 cases); every state through the real components; random beams from first principles",
+        "Mass = rho sum A L w (x2 symmetric), cg = mass-weighted centroid of both halves, distributed weight and fuel loads sum to -m g n (half share, reserve included) with the moment of the distributed load about two points, point-mass and thrust loads conserve force and moment for any nodal weighting, margin = volume - required volume; every table state and random beams (2-8 nodes, 1-3 point masses, five option combinations of TotalLoads) are checked on the real components.",
+        "Element vectors with integer length and horizontal projection in TLC; loads in units of g. " + TRUSTED,
+        "5 C16, 3.7",
+    ),
+    "C17": (
+        "model_checking",
+        "TLC: KFunc exact rational transcription of the functionals with their defining identities as invariants (240 cases); every state through the real components; random inputs through TotalPerformance; atmosphere consistency and continuity",
+        "Area-weighted coefficients, L = q S CL, drag build-up, residual = 1 - L/W with W = (W0 + structures + fuel) g n, cg = mass-weighted mean, CM = M/(q S MAC_first), lift normal / drag along the free stream for Pythagorean angles, Breguet through the exponent argument; the real Coeffs, TotalLift, TotalDrag, SumAreas, TotalLiftDrag, Equilibrium, CenterOfGravity, MomentCoefficient, LiftDrag, BreguetRange reproduce the table; the atmosphere group is checked for ideal gas, speed of sound, v = M a, Reynolds number, Sutherland viscosity and continuity on a 50 ft grid.",
+        "Atmosphere data carry ~4 digits: consistency to 0.2 % (viscosity 2 %); a dropped digit in the pressure table was found and fixed (aa07cb3). " + TRUSTED,
+        "5 C17, 3.7",
+    ),
 }
 PENDING = {}
 
